@@ -74,9 +74,28 @@ fn run_compress(ctx: &mut Ctx, cell: u32) {
     }
     scen::set_stdin(None);
     scen::draw_schedule();
-    sys::with(|s| s.log.clear());
+    // one run in five: the first open(s) of the output path fail transiently (ETIMEDOUT / ESTALE /
+    // EINTR, as on a network file system). Whatever compress does about that, an output that
+    // existed and was not to be overwritten stays as it is.
+    let open_fault = if gen::chance(1, 5) {
+        let errno = *gen::t(|t| t.pick(&[libc::ETIMEDOUT, libc::ESTALE, libc::EINTR, libc::EAGAIN]));
+        let n = 1 + gen::draw(2) as u64;
+        Some((errno, n))
+    } else {
+        None
+    };
+    sys::with(|s| {
+        s.log.clear();
+        if let Some((errno, n)) = open_fault {
+            let base = s.path_mut("a.cba").opens;
+            for i in 0..n {
+                s.add_fault("a.cba", sys::Op::Open, base + i, sys::FaultAction::Errno(errno));
+            }
+        }
+    });
     let r = scen::run(&scen::compress_args(&spec, Some("src.bin"), "a.cba", force));
-    let desc = json!({"command": "compress", "existing_output": existing, "force_create": force});
+    sys::with(|s| s.faults.clear());
+    let desc = json!({"command": "compress", "existing_output": existing, "force_create": force, "transient_open_failures": open_fault.map(|(e, n)| format!("{} x errno {}", n, e))});
     if ctx.want_sample {
         ctx.verdict.sample = Some(desc.clone());
     }
@@ -101,7 +120,7 @@ fn run_compress(ctx: &mut Ctx, cell: u32) {
             return;
         }
         simkit::count("refusal:compress-exists");
-    } else if !r.outcome.is_success() {
+    } else if !r.outcome.is_success() && open_fault.is_none() {
         ctx.fail(&format!("compress-outcome:{}", r.outcome.class()), format!("compress that must proceed ended with {}; {}", r.outcome.short(), desc));
         return;
     }
@@ -283,6 +302,19 @@ fn run_clone(ctx: &mut Ctx, cell: u32) {
         "output-itself" => opts.seeds.push(out_name.to_string()),
         _ => {}
     }
+    // over HTTP, one run in four: the first requests are refused (the header cannot be fetched),
+    // as often as --http-retry-count allows and once more, then the server answers again. The
+    // clone fails or, if it somehow gets through, the refusals still apply.
+    let mut flaky = false;
+    if http && gen::chance(1, 4) {
+        opts.retries = 1 + gen::draw(2);
+        let k = opts.retries as usize + 1 + gen::draw(2) as usize;
+        if let Some(s) = &server {
+            s.lock().unwrap().script = vec![Some(crate::net::NetFault::Refuse); k];
+        }
+        flaky = true;
+        simkit::count("probe:header-requests-refused-then-answered");
+    }
     scen::set_stdin(None);
     scen::draw_schedule();
     let creator = if racing { Some(spawn_creator("out.bin")) } else { None };
@@ -301,7 +333,7 @@ fn run_clone(ctx: &mut Ctx, cell: u32) {
     });
     let desc = json!({
         "command": "clone", "transport": if http { "http" } else { "local" }, "archive": archive_kind, "flag": flag, "output": output_kind,
-        "prior_len": prior.as_ref().map(|p| p.len()), "source_len": src_len, "creator_won": creator_won, "seed": seed_kind, "verify_header": verify_header.is_some(), "archive_options": m.desc,
+        "prior_len": prior.as_ref().map(|p| p.len()), "source_len": src_len, "creator_won": creator_won, "seed": seed_kind, "header_requests_refused_first": flaky, "verify_header": verify_header.is_some(), "archive_options": m.desc,
     });
     if ctx.want_sample {
         ctx.verdict.sample = Some(desc.clone());
@@ -367,6 +399,13 @@ fn run_clone(ctx: &mut Ctx, cell: u32) {
             "refusal:device-too-small"
         });
     } else if !r.outcome.is_success() {
+        if flaky {
+            // the header could not be fetched within the retry budget: a legitimate failure
+            simkit::count("flaky-server-failed-the-clone");
+            ctx.verdict.nontrivial = true;
+            ctx.verdict.shape = cell as u64 ^ (1 << 30);
+            return;
+        }
         ctx.fail(&format!("clone-outcome:{}", r.outcome.class()), format!("a clone that must proceed ended with {}; {}", r.outcome.short(), desc));
         return;
     } else {
